@@ -35,7 +35,7 @@ ALL_FEATURES = {
     "array_pop", "early_return", "shadowing", "else_if", "assert_stmt", "array_pass", "struct_pass",
     "string_escapes", "effectful_logic", "continue_in_for", "print_enum", "min_max", "array_slice",
     "array_struct", "float_arith", "deep_expr", "array_alias", "str_substring", "char_at", "global_shadow",
-    "unused_results", "long_strings", "self_compare", "tuple_pass", "effectful_args", "shadow_type_change", "out_of_scope_reference", "array_float", "struct_array_field", "fn_returning_composite", "print_float", "loop_nest", "global_init_expr", "guard_idiom", "ext_builtins",
+    "unused_results", "long_strings", "self_compare", "tuple_pass", "effectful_args", "shadow_type_change", "out_of_scope_reference", "array_float", "struct_array_field", "fn_returning_composite", "print_float", "loop_nest", "global_init_expr", "guard_idiom", "ext_builtins", "field_of_call",
 }
 
 
@@ -596,6 +596,26 @@ def projections(g, sc, t):
     return out
 
 
+def temp_projection(g, sc, t, d):
+    """Field of a struct that exists only as the result of a call: (f args).field - the struct is a temporary whose
+    last reference is the operand of the field read."""
+    if not g.has("field_of_call") or not g.has("functions") or g.pure > 0:
+        return None
+    cands = []
+    for (sn, fields) in g.structs:
+        fs = [f for f, ft in fields if ft == t]
+        if fs and callables(g, sc, ("struct", sn)):
+            cands.append((sn, fs))
+    if not cands:
+        return None
+    sn, fs = g.pick(cands)
+    c = gen_call(g, sc, ("struct", sn), d)
+    if not c or c[0] != "call":
+        return None
+    g.use("field_of_call")
+    return ("field", c, g.pick(fs))
+
+
 def callables(g, sc, t):
     """(kind, name/expr, param types) of things callable that return t."""
     out = []
@@ -760,6 +780,9 @@ def gen_int(g, sc, d):
             g.use("at")
             return ("bi", "at", [("var", a), safe_index(g, sc, a, d)])
     if k == 13:
+        tp = temp_projection(g, sc, "int", d) if g.chance(1, 3) else None
+        if tp:
+            return tp
         ps = projections(g, sc, "int")
         if ps:
             g.use("projection")
@@ -843,6 +866,9 @@ def gen_bool(g, sc, d):
         g.use("cmp_enum")
         return ("bin", g.pick(["==", "!="]), gen_expr(g, sc, t, 0), gen_expr(g, sc, t, 0), g.style())
     if k == 13:
+        tp = temp_projection(g, sc, "bool", d) if g.chance(1, 3) else None
+        if tp:
+            return tp
         ps = projections(g, sc, "bool")
         if ps:
             return g.pick(ps)
@@ -908,6 +934,9 @@ def gen_string(g, sc, d):
             g.use("at_string")
             return ("bi", "at", [("var", a), safe_index(g, sc, a, d)])
     if k == 7:
+        tp = temp_projection(g, sc, "string", d) if g.chance(1, 3) else None
+        if tp:
+            return tp
         ps = projections(g, sc, "string")
         if ps:
             g.use("projection")
